@@ -43,7 +43,7 @@ def gen_channel(rng: random.Random, kind: str, local: bool, virtual: bool) -> di
         c["max_duration"] = int(1e8)
     if kind == "dmm":
         if rng.random() < 0.7:
-            c["bottom_detuning"] = rng.choice([-10.0, -20.0, -5.5])
+            c["bottom_detuning"] = rng.choice([-10.0, -20.0, -5.5]) if rng.random() > 0.06 else 0.0
         if rng.random() < 0.5:
             c["total_bottom_detuning"] = rng.choice([-40.0, -100.0, -20.0])
             if c.get("bottom_detuning") is not None and c["bottom_detuning"] < c["total_bottom_detuning"]:
@@ -60,7 +60,8 @@ def gen_channel(rng: random.Random, kind: str, local: bool, virtual: bool) -> di
         # defined -- see C12)
         c["max_abs_detuning"] = None
     else:
-        c["max_abs_detuning"] = rng.choice([20.0, 125.6, 62.8])
+        # (0: a channel that allows no detuning at all — a limit that is falsy, not absent)
+        c["max_abs_detuning"] = rng.choice([20.0, 125.6, 62.8]) if rng.random() > 0.06 else 0.0
     if rng.random() < 0.3:
         c["min_avg_amp"] = rng.choice([0.5, 1.0])
     if local:
